@@ -227,6 +227,49 @@ def layout_migration(k, mode='crash', aspect='all'):
     return Q()
 
 
+def layout_symbolic(mode):
+    """The folder-layout migration with a SYMBOLIC crash / fault index (every index past the last effect is one path), the listed
+    point excluded by precondition (it has its own obligations): after re-running, the settings, the rules and the data file are
+    where tally looks for them."""
+    pool()
+
+    def ob(k: int) -> bool:
+        """
+        pre: 0 <= k <= 40 and k != 2
+        post: _
+        """
+        from engine import fsx
+        from tally import cli
+        k = int(k)
+        root = build(True, False, False)
+        reset_tally_caches()
+        cwd = os.getcwd()
+        os.chdir(root)
+        try:
+            with fsx.Interpose(root, **({'crash_at': k} if mode == 'crash' else {'fault_at': k})):
+                try:
+                    _quiet(cli.run_migrations, os.path.join(root, 'config'), True)
+                except fsx.Crash:
+                    pass
+                except Exception:
+                    pass
+            cd = cli.find_config_dir()
+            if cd:
+                try:
+                    _quiet(cli.run_migrations, cd, True)
+                except Exception:
+                    pass
+            cd = cli.find_config_dir()
+            ok = cd is not None and os.path.exists(os.path.join(os.path.dirname(cd), 'data', 'bank.csv'))
+            ok = ok and os.path.exists(os.path.join(cd, 'merchant_categories.csv')) and os.path.exists(os.path.join(cd, 'settings.yaml'))
+        finally:
+            os.chdir(cwd)
+            import shutil
+            shutil.rmtree(root, ignore_errors=True)
+        return post(ok)
+    return ob
+
+
 KNOWN_LAYOUT_POINTS = (2,)      # crash points at which the pinned code is NOT resumable (known finding)
 N_LAYOUT_EFFECTS = 5
 
@@ -240,6 +283,9 @@ def obligations(tier, seed):
         for st in ([False, False, False], [False, True, False], [True, False, False], [True, True, True], [True, False, True]):
             obs.append(Obligation(id=f'init-{mode}-' + ''.join(str(int(x)) for x in st), factory='migration', params={'cmd': 'init', 'mode': mode, 'state': st}, timeout=170 if q else 900,
                                   group='CSV -> .rules migration', bounds=f'`tally init` on a folder with settings={st[0]}, .bak={st[1]}, merchants.rules={st[2]}: symbolic {mode} index 0..24' + (', partial-write mode 0..2' if mode == 'crash' else '')))
+    for mode in ('crash', 'fault'):
+        obs.append(Obligation(id=f'layout-symbolic-{mode}', factory='layout_symbolic', params={'mode': mode}, timeout=170 if q else 900, group='folder-layout migration',
+                              bounds=f'run_migrations on a legacy-layout budget: symbolic {mode} index 0..40 except the listed point 2, then the same command again'))
     for mode, kmax in (('crash', 24), ('fault', 16)):
         for k in range(0, 40 if tier != 'quick' else kmax):
             known = k in KNOWN_LAYOUT_POINTS
